@@ -135,7 +135,8 @@ pub fn close_ulps(a: f32, b: f32, ulps: u32) -> bool {
         return a.is_nan() && b.is_nan();
     }
     if a == b {
-        return true;
+        // equal numbers; two zeros must also agree in sign (sin(-0.0) is -0.0: no library rounds that away)
+        return a != 0.0 || a.to_bits() == b.to_bits();
     }
     if a.is_infinite() || b.is_infinite() {
         return false;
